@@ -68,13 +68,16 @@ func main() {
 
 	run("response_encoder", func(g, i int) bool {
 		rec := httptest.NewRecorder()
-		accept := []string{"application/json", "application/xml", "", "text/plain"}[(g+i)%4]
+		k := (g + i) % 6
+		accept := []string{"application/json", "application/xml", "", "text/plain", "application/xml; q=0.8", "application/gob; q=0.7"}[k]
+		wantCT := []string{"application/json", "application/xml", "application/json", "text/plain", "application/xml", "application/gob"}[k]
 		ctx := context.WithValue(context.Background(), goahttp.AcceptTypeKey, accept)
 		v := fmt.Sprintf("v-%d-%d", g, i)
 		if err := goahttp.ResponseEncoder(ctx, rec).Encode(v); err != nil {
 			return false
 		}
-		return strings.Contains(rec.Body.String(), v)
+		// the negotiated content type belongs to this request alone
+		return strings.Contains(rec.Body.String(), v) && strings.HasPrefix(rec.Header().Get("Content-Type"), wantCT)
 	})
 
 	mux := goahttp.NewMuxer()
